@@ -1894,3 +1894,54 @@ package mcp
 //@ func WithHTTPContextFunc$1
 //@   ensures[C13 a-later-context-function-runs-after-the-earlier-ones] len(s.config.httpContextFuncs) == len(old(s.config.httpContextFuncs)) + 1 && s.config.httpContextFuncs[len(old(s.config.httpContextFuncs))] == fn && (forall j int :: 0 <= j && j < len(old(s.config.httpContextFuncs)) ==> s.config.httpContextFuncs[j] == old(s.config.httpContextFuncs[j]))
 //@
+// ---- C05 — legacy SSE: a session whose client has completed the handshake can be sent notifications: the
+// notifications/initialized message marks the session initialized (sendNotificationToSession refuses others)
+//@ func SSEServer.handleNotification
+//@   ensures[C05,C16 the-initialized-notification-marks-the-session-initialized] old(notification.Method) == "notifications/initialized" && session != nil ==> session.initialized
+//@
+// ---- twelfth measurement round (ids -13): general facts behind the misses ----
+// C10 / C13 / C12 — a closure made in a loop does not capture a variable the loop reassigns (go 1.20: one variable
+// for all iterations, so every wrapper would call the last element)
+//@ sweepscope[C10,C13] kinds=loopclosure files=streamable_client.go,sse_client.go,transport_stdio.go,client.go,streamable_server.go,sse_server.go,stdio_server.go,server.go,handler.go,manager_tools.go,manager_prompt.go,manager_resource.go,manager_lifecycle.go,notifier.go
+//@
+// C14 — the sender offered to handlers when the answer goes out as plain JSON swallows notifications: it never fails
+// (a tool that propagates a send failure would otherwise answer differently by response mode)
+//@ func noopNotificationSender.SendLogMessage
+//@   ensures[C14 the-no-op-sender-never-fails] result == nil
+//@ func noopNotificationSender.SendProgress
+//@   ensures[C14 the-no-op-sender-never-fails] result == nil
+//@ func noopNotificationSender.SendCustomNotification
+//@   ensures[C14 the-no-op-sender-never-fails] result == nil
+//@ func noopNotificationSender.SendNotification
+//@   ensures[C14 the-no-op-sender-never-fails] result == nil
+//@
+// C19 — a termination that was not carried out leaves the session id in place
+//@ func streamableHTTPClientTransport.terminateSession
+//@   ensures[C19 a-failed-termination-keeps-the-session-id] result != nil ==> t.sessionID == old(t.sessionID)
+//@
+// C02 — the error of a single-content resource handler is returned as it is
+//@ func resourceManager.registerResource$1
+//@   before call return#0 assert[C02 a-resource-handlers-error-is-returned-as-is] !isnil(err) ==> ret1 == err
+//@
+// C03 — a typed tool handler's successful result carries a content array
+//@ func NewTypedToolHandler$1
+//@   before call return#0 assert[C03 a-typed-result-carries-a-content-array] isnil(ret1) && ret0 != nil ==> ret0.Content != nil
+//@
+// C01 — the answer to a stdio request is written by the request's own goroutine (never queued where it could be dropped)
+//@ ghost stable wrcalls int
+//@ func stdioTransport.writeResponse
+//@   counted wrcalls
+//@ func stdioTransport.processMessage
+//@   before call return#0 assert[C01 the-answer-to-a-request-is-written-by-its-own-goroutine] isnil(err) && !isnil(response) ==> wrcalls == old(wrcalls) + 1
+//@
+// C05 / C07 — no function assigns to a by-value parameter a value that nothing reads (what is left of "reset the
+// accumulators" once they became parameters of a helper closure: the event would be dispatched again and again)
+//@ sweepscope[C05,C07] kinds=deadparamstore files=sse_client.go,streamable_client.go,transport_stdio.go,client.go,stdio_client.go,sse_server.go,streamable_server.go,stdio_server.go,server.go,notifier.go
+//@
+// C17 — an attempt does not wait on its own: between attempts only the retry executor waits (so the k-th wait is
+// what the policy says, whatever the server suggests)
+//@ func streamableHTTPClientTransport.send
+//@   sweep[C17] nowait
+//@ func sseClientTransport.sendRequest$1
+//@   sweep[C17] nowait
+//@
